@@ -6,9 +6,11 @@
    86 (s)            person chain  parse -> merge -> parse
    87 (s)            list chain    split -> parse each -> merge each -> join -> split -> parse each
    90 (mws nf block) middleware stack on one block     (nf = () default name_fields | ((k1 k2 ...)))
-   91 (block)        parse-side middlewares on the block; then the field values after the write-side middlewares *)
+   91 (block)        parse-side middlewares on the block; then the field values after the write-side middlewares
+   95 (word)         BibTeX's own von test on one word (Spec/BibtexCase.von_token_found): ties the Coq statement of known
+                     finding K14 to the Python transcription that gives the check's verdicts *)
 From Coq Require Import List NArith ZArith Bool.
-From BP Require Import Base.Chars Base.Sx Model.Blocks Run.Codec Gen.Constants Model.Names Spec.C12 Spec.C13 Spec.C14.
+From BP Require Import Base.Chars Base.Sx Model.Blocks Run.Codec Gen.Constants Model.Names Spec.C12 Spec.C13 Spec.C14 Spec.BibtexCase.
 Import ListNotations.
 Local Open Scope Z_scope.
 
@@ -121,5 +123,9 @@ Definition run_names (op : Z) (args : list sx) : sx :=
             end
         | None => sx_err
         end
+    | _ => sx_err end
+  else if op =? 95 then
+    match args with
+    | [w] => match as_str w with Some w' => r_ok (sbool (von_token_found w')) | None => sx_err end
     | _ => sx_err end
   else sx_err.
